@@ -210,11 +210,11 @@ func C14(c *core.Ctx) {
 	// names: the file still type-checks, every key is bound to its own field, and the keys that count as additional are enumerated from
 	// the shadow type of the decoded value (A-SHADOW)
 	for _, mb := range reservedNameMembers(gen.DefaultConfig()) {
-		runMember(c, mb, ruleSet("A-TYP", "A-TAG", "A-SHADOW"), 64, func(w *fam.World, fm *fam.FileModel) []fam.Issue {
+		runMember(c, mb, ruleSet("A-TYP", "A-TAG", "A-SHADOW", "A-COLLECT"), 64, func(w *fam.World, fm *fam.FileModel) []fam.Issue {
 			var keep []fam.Issue
 			keep = append(keep, w.TypIssues(c.Prog.Repo)...)
 			for _, is := range fam.MethodIssues(fm) {
-				if is.Rule == "A-SHADOW" {
+				if is.Rule == "A-SHADOW" || is.Rule == "A-COLLECT" {
 					keep = append(keep, is)
 				}
 			}
